@@ -257,3 +257,4 @@ func init() {
 		}
 	})
 }
+
